@@ -10,6 +10,24 @@ BASELINE_OFF = ("cd /repo && export GOFLAGS=-mod=mod GOPROXY=off GOSUMDB=off GOT
 
 # id -> (category, technique, engine, level text, level note, design ref)
 CLAIMS = {
+    "C02": ("exploration",
+            "explicit-state BFS over wallet operation histories on the real manager+store against a reference model, restart check in every state",
+            "seqx",
+            "Every history up to depth 5 (quick) / 6 (thorough) over create, address generation on both branches, plot-key issuance, remark change, private/public passphrase change, delete, export/import, lock/unlock and restart with right/wrong public passphrase, on 2 seeds, is executed on the real KeystoreManagerForPoC over the real ldb driver; in every reached state the store is closed and reopened: refused opens leave the raw key/value dump unchanged, the reopened wallet equals the running one and the reference (keystores, remarks, (branch,index,pubkey) sets, next indices, ordinals), passphrase behaviour (wrong/superseded/public/ill-formed refuse, current unlocks and signs) and next addresses agree.",
+            "MemStorage-backed goleveldb; scrypt N=16; small alphabets of seeds/passphrases/remarks; hidden-state fingerprint variants depend on Go map order so state counts vary by a few between runs",
+            "DESIGN.md §C02"),
+    "C05": ("exploration",
+            "explicit-state BFS over wallet histories; every issued key signs and is verified in every state",
+            "seqx",
+            "Every history up to depth 6/7; in every state each key ever issued (both branches, issued locked or unlocked, before/after restart, import, passphrase changes) is asked to sign 2 digests and 2 messages: unlocked => verifies under exactly that key and digest and not under another key/digest; locked, unowned (foreign, deleted keystore), nil key and bad digest lengths => refused.",
+            "pocec signature verification trusted; small digests/messages set",
+            "DESIGN.md §C05"),
+    "C06": ("exploration",
+            "explicit-state BFS over wallet histories with 1-3 keystores; map-order choice of GenerateNewPublicKey enumerated by the harness",
+            "seqx",
+            "Sequential part: every history up to depth 6/7 mixing GenerateNewPublicKey (each possible keystore pick explored as its own operation) with NextAddresses, lock changes, export/delete/import and restart; ordinals are the owning keystore's next external index (consecutive, no gaps/reuse within a keystore lifetime), keys never re-appear at another position, GetPublicKeyOrdinal is stable now and after restart, issuance continues correctly after restart. The concurrent part (two goroutines issuing keys) is decided by the C14 check.",
+            "'never returned before' is evaluated per keystore lifetime: deleting a keystore and importing an older export legitimately rolls its counter back",
+            "DESIGN.md §C06"),
     "C18": ("exploration",
             "bounded-exhaustive enumeration of (seed, path) inputs on the real code against an independent BIP32/BIP39 reference",
             "seqx",
